@@ -28,10 +28,9 @@ theorem leVal_encS64 (i : Int) (h1 : -9223372036854775808 ≤ i) (h2 : i < 92233
 theorem readAt_mid (pre mid post : Bytes) (h : pre.length < two63) :
     readAt (pre ++ mid ++ post) pre.length mid.length = some mid := by
   unfold readAt
-  rw [if_neg (by omega)]
   by_cases h0 : mid.length = 0
   · rw [if_pos h0]; simp [List.eq_nil_of_length_eq_zero h0]
-  · rw [if_neg h0, if_pos (by simp)]
+  · rw [if_neg h0, if_neg (by omega), if_pos (by simp)]
     rw [List.append_assoc, List.drop_left' rfl, List.take_left' rfl]
 
 theorem splitEvery_flatMap {α : Type} (k : Nat) (f : α → Bytes) (hf : ∀ x, (f x).length = k) (l : List α) (rest : Bytes) :
